@@ -84,7 +84,9 @@ func (u *stepUntrusted) deliver(sn *stepNode, m wire.Message) {
 		return
 	}
 	u.drain(sn)
-	if err := u.un.handleMessage(sn.ctx, m); err != nil {
+	var err error
+	guard("untrusted handleMessage "+m.Command(), func() { err = u.un.handleMessage(sn.ctx, m) })
+	if err != nil {
 		u.closed = true // monitorIncoming stops the connection on a handler error
 	}
 	u.drain(sn)
@@ -271,7 +273,9 @@ func txHistRun(sc *TxHistScenario) (res *txHistResult) {
 			sn.step++
 			i, known := idOf[*td.Msg.TxHash()]
 			wasIn := known && sn.node.memPool.TransactionExists(td.Msg.TxHash())
-			if err := sn.node.processUnconfirmedTx(sn.ctx, td); err != nil {
+			var err error
+			guard("processUnconfirmedTx", func() { err = sn.node.processUnconfirmedTx(sn.ctx, td) })
+			if err != nil {
 				sn.txThreadDead = err.Error()
 			}
 			sn.drain()
